@@ -372,8 +372,11 @@ pub fn run_c07(ctx: &Ctx) -> i32 {
         }
     }
     if !quick {
-        // all length-4 paths over the reduced alphabet
-        let extra = enumerate_paths(alphabet_q.clone(), 4);
+        // all length-4 paths over the quick tier's alphabet (11 commands)
+        let mut small: Vec<Cmd> = vec![Cmd::NewGame, Cmd::Stop];
+        small.extend([1usize, 2, 3, 4, 7, 9].iter().map(|&i| Cmd::Position(i)));
+        small.extend([0usize, 1, 2].iter().map(|&i| Cmd::Go(i)));
+        let extra = enumerate_paths(small, 4);
         states.extend(extra.into_iter().filter(|s| s.path.len() == 4));
     }
     if quick {
@@ -465,7 +468,7 @@ pub fn run_c07(ctx: &Ctx) -> i32 {
         ctx.get("commands") + ctx.get("tracking_commands"),
         traces + ctx.get("tracking_commands"),
         true,
-        "session model (stateright): every command path of length <= 3 over {ucinewgame, stop, position x menu, go x menu} (thorough: also uci/isready/quit and all length-4 paths) plus every position-go-position-go path; every model path - not only counterexamples - is replayed on a fresh `weechess uci` process with an isready barrier after each command and two timing answers (wait for bestmove / send the next command immediately); per go the number of bestmove lines up to the next collecting command must equal the model's prediction (1 iff the model position has a legal move) and each bestmove must be legal in the model position; exit status 0. Tracking: depth-first walk over every move path of length <= 3 (quick: third ply strided 1/7) from the start position and length <= 2 from the special-rule corpus, with the parent's command re-sent after every subtree (take-backs), FEN printed by `.state` vs. the model's",
+        "session model (stateright): every command path of length <= 3 over {ucinewgame, stop, position x menu, go x menu} (thorough: also uci/isready/quit, the full menus, and all length-4 paths over the quick alphabet) plus every position-go-position-go path; every model path - not only counterexamples - is replayed on a fresh `weechess uci` process with an isready barrier after each command and two timing answers (wait for bestmove / send the next command immediately); per go the number of bestmove lines up to the next collecting command must equal the model's prediction (1 iff the model position has a legal move) and each bestmove must be legal in the model position; exit status 0. Tracking: depth-first walk over every move path of length <= 3 (quick: third ply strided 1/7) from the start position and length <= 2 from the special-rule corpus, with the parent's command re-sent after every subtree (take-backs), FEN printed by `.state` vs. the model's",
         &["the OS scheduler inside the engine process is not controlled: two timing answers per trace; finer timings are explored in-process by loom and the stop-instant enumerator", "the binary is built from the working tree with the hooks on; the hook only makes the default table size configurable (16 MiB here instead of 1 GiB)"],
     )
 }
